@@ -10,7 +10,9 @@
    callback that fires, also inside abandoned alternatives and repetition bodies) and Model/ParserState.v
    (MathParser as a state machine: cache, heap of shared set objects, scratch cell, reset on every exit;
    parse() and evaluator() as calls on the shared state).  [junk] is whatever pyparsing recorded while
-   failing on a string beyond what the token-level model computes; every theorem holds for all junk.
+   failing on a string beyond what the token-level model computes; [engine] says on which strings the
+   parsing engine itself gives up with a non-parse exception (RecursionError on deep nesting), which then
+   escapes untranslated; every theorem holds for all junk and all engine.
    [faithful] is the policy of the code as it is.  Tie to the code: harness/props/c10.py (correspondence of
    outcomes, cache keys and scratch state after every call of every history; fresh-vs-shared oracle). *)
 From Coq Require Import ZArith QArith List Bool Permutation.
@@ -36,9 +38,10 @@ Proof. exact cb_tree. Qed.
 
 (* For every string the grammar accepts, after any history of calls on the shared parser: the reported
    collections are exactly the occurrences in the tree. *)
-Theorem C10_reported_names_exact : forall junk ops s t,
+Theorem C10_reported_names_exact : forall junk engine ops s t,
+  engine (strip_spaces s) = false ->
   parse_formula s = PTree t ->
-  exists l, snd (step junk faithful (run junk faithful init ops) (OParse s)) = VP (VTree t l) /\
+  exists l, snd (step junk engine faithful (run junk engine faithful init ops) (OParse s)) = VP (VTree t l) /\
             nperm l (names_of t).
 Proof. exact reported_names_exact. Qed.
 
@@ -51,20 +54,22 @@ Proof. exact names_flatten. Qed.
    uses (prefixes of one another, the same name as function and variable, primes, indices, suffix letters)
    -- parsed after any history, reports x as a variable iff x occurs as a variable in e, as a function iff it
    occurs as a function head, as a suffix iff it occurs as a number suffix. *)
-Theorem C10_names_exact : forall junk ops s e,
+Theorem C10_names_exact : forall junk engine ops s e,
+  engine (strip_spaces s) = false ->
   wf_expr e = true ->
   lex (strip_spaces s) = Some (render e) ->
-  exists l, snd (step junk faithful (run junk faithful init ops) (OParse s)) = VP (VTree (flatten e) l) /\
+  exists l, snd (step junk engine faithful (run junk engine faithful init ops) (OParse s)) = VP (VTree (flatten e) l) /\
             forall x, (In x (n_vars l) <-> In x (evars e)) /\
                       (In x (n_funcs l) <-> In x (efuncs e)) /\
                       (In x (n_sufs l) <-> In x (esufs e)).
 Proof. exact names_exact_membership. Qed.
 
 (* with multiplicities *)
-Theorem C10_names_exact_multiset : forall junk ops s e,
+Theorem C10_names_exact_multiset : forall junk engine ops s e,
+  engine (strip_spaces s) = false ->
   wf_expr e = true ->
   lex (strip_spaces s) = Some (render e) ->
-  exists l, snd (step junk faithful (run junk faithful init ops) (OParse s)) = VP (VTree (flatten e) l) /\
+  exists l, snd (step junk engine faithful (run junk engine faithful init ops) (OParse s)) = VP (VTree (flatten e) l) /\
             nperm l (enames e).
 Proof. exact names_exact_string. Qed.
 
@@ -80,19 +85,21 @@ Theorem C10_callbacks_record_exactly_the_input_tokens : forall ts t log,
 Proof. exact cb_exact_tokens. Qed.
 
 (* ... on the shared parser, after any history, for every accepted string *)
-Theorem C10_reported_names_are_the_tokens : forall junk ops s ts t,
+Theorem C10_reported_names_are_the_tokens : forall junk engine ops s ts t,
+  engine (strip_spaces s) = false ->
   check_brackets (strip_spaces s) = None -> lex (strip_spaces s) = Some ts -> parse_tokens ts = Some t ->
-  exists l, snd (step junk faithful (run junk faithful init ops) (OParse s)) = VP (VTree t l) /\
+  exists l, snd (step junk engine faithful (run junk engine faithful init ops) (OParse s)) = VP (VTree t l) /\
             nperm l (scan_names ts).
 Proof. exact reported_names_are_the_tokens. Qed.
 
 (* names_exact for explicit renderings: canonical tokens of a derivation, arbitrary TAB / LF / CR runs before,
    between and after them, spaces anywhere (tokens valid in the sense of C03's lexer round trip, which leaves
    out suffixes beginning with e / E -- C10_names_exact covers those through its lexing hypothesis) *)
-Theorem C10_names_exact_rendering : forall junk ops e seps s,
+Theorem C10_names_exact_rendering : forall junk engine ops e seps s,
+  engine (strip_spaces s) = false ->
   wf_expr e = true -> Forall valid_token (render e) -> Forall (fun w => forallb is_ws w = true) seps ->
   strip_spaces s = spaced seps (render e) ->
-  exists l, snd (step junk faithful (run junk faithful init ops) (OParse s)) = VP (VTree (flatten e) l) /\
+  exists l, snd (step junk engine faithful (run junk engine faithful init ops) (OParse s)) = VP (VTree (flatten e) l) /\
             nperm l (enames e).
 Proof. exact names_exact_rendering. Qed.
 
@@ -102,38 +109,39 @@ Proof. exact brackets_of_print. Qed.
 
 (* ---------- history independence ---------- *)
 
-Theorem C10_inv_init : Inv init.
+Theorem C10_inv_init : forall engine, Inv engine init.
 Proof. exact inv_init. Qed.
 
 (* one call of any kind -- successful, malformed, cached, evaluating -- preserves the invariant, alters no
    collection that existed before, and shows the caller the stateless description of that call *)
-Theorem C10_inv_step : forall junk st o, Inv st ->
-  let (st', v) := step junk faithful st o in Inv st' /\ frame st st' /\ v = spec_view o.
+Theorem C10_inv_step : forall junk engine st o, Inv engine st ->
+  let (st', v) := step junk engine faithful st o in Inv engine st' /\ frame st st' /\ v = spec_view engine o.
 Proof. exact step_spec. Qed.
 
 (* The outcome of a call (tree and reported names, value and metadata, or the error with the string it
    quotes) after ANY history of parse / evaluate calls, valid and invalid strings interleaved, is the
    outcome of that call on a freshly constructed parser. *)
-Theorem C10_history_independent : forall junk ops o,
-  snd (step junk faithful (run junk faithful init ops) o) = snd (step junk faithful init o).
+Theorem C10_history_independent : forall junk engine ops o,
+  snd (step junk engine faithful (run junk engine faithful init ops) o) = snd (step junk engine faithful init o).
 Proof. exact history_independent. Qed.
 
 (* the same for every call inside a continuation of a history *)
-Theorem C10_trace_history_independent : forall junk before ops,
-  trace junk faithful (run junk faithful init before) ops = trace junk faithful init ops.
+Theorem C10_trace_history_independent : forall junk engine before ops,
+  trace junk engine faithful (run junk engine faithful init before) ops = trace junk engine faithful init ops.
 Proof. exact trace_history_independent. Qed.
 
 (* and the outcome does not depend on the unknown callbacks of failed parses either *)
-Theorem C10_outcome_is_stateless : forall junk ops st, Inv st -> trace junk faithful st ops = map spec_view ops.
+Theorem C10_outcome_is_stateless : forall junk engine ops st, Inv engine st ->
+  trace junk engine faithful st ops = map (spec_view engine) ops.
 Proof. exact trace_spec. Qed.
 
 (* A MathExpression handed out by parse() -- from the cache or not -- keeps reporting the same collections
    whatever is parsed or evaluated later. *)
-Theorem C10_returned_object_stable : forall junk before s later,
-  let st1 := fst (parse_op junk faithful (run junk faithful init before) s) in
-  match snd (parse_op junk faithful (run junk faithful init before) s) with
-  | inl p => VTree (p_tree p) (cell st1 (p_ref p)) = spec_parse s /\
-             cell (run junk faithful st1 later) (p_ref p) = cell st1 (p_ref p)
+Theorem C10_returned_object_stable : forall junk engine before s later,
+  let st1 := fst (parse_op junk engine faithful (run junk engine faithful init before) s) in
+  match snd (parse_op junk engine faithful (run junk engine faithful init before) s) with
+  | inl p => VTree (p_tree p) (cell st1 (p_ref p)) = spec_parse engine s /\
+             cell (run junk engine faithful st1 later) (p_ref p) = cell st1 (p_ref p)
   | inr _ => True
   end.
 Proof. exact returned_object_stable. Qed.
@@ -141,8 +149,8 @@ Proof. exact returned_object_stable. Qed.
 (* ---------- link to C03's model ---------- *)
 
 (* the stateless description is Model/Parser.v's parse_formula, errors quoting the call's own string *)
-Theorem C10_spec_is_parse_formula : forall s,
-  match spec_parse s, parse_formula s with
+Theorem C10_spec_is_parse_formula : forall engine s, engine (strip_spaces s) = false ->
+  match spec_parse engine s, parse_formula s with
   | VTree t l, PTree t' => t = t' /\ nperm l (names_of t)
   | VErr (EUnbal e k), PUnbalanced e' => e = e' /\ k = strip_spaces s
   | VErr (EUnparse q), PUnparsable => q = s
@@ -150,40 +158,59 @@ Theorem C10_spec_is_parse_formula : forall s,
   end.
 Proof. exact spec_parse_formula. Qed.
 
+(* where the engine gives up (balanced brackets, nesting too deep for it) its exception escapes as it is *)
+Theorem C10_engine_failure_escapes : forall engine s,
+  check_brackets (strip_spaces s) = None -> engine (strip_spaces s) = true -> spec_parse engine s = VErr EEngine.
+Proof. exact spec_parse_engine. Qed.
+
 (* evaluator() through the shared parser, after any history, is Model/Eval.v's evaluator *)
-Theorem C10_evaluate_is_evaluator : forall E m f, eview_outcome (spec_eval E m f) = evaluator E m f.
+Theorem C10_evaluate_is_evaluator : forall engine E m f,
+  (forall s, f = Some s -> engine (strip_spaces (py_strip s)) = false) ->
+  eview_outcome (spec_eval engine E m f) = evaluator E m f.
 Proof. exact spec_eval_evaluator. Qed.
 
 (* ---------- examples ---------- *)
 
-(* three malformed strings (callbacks fire for x and f inside "f(x,)", junk is recorded), then valid ones *)
+(* three malformed strings and one on which the engine gives up (callbacks fire for x and f inside "f(x,)",
+   junk is recorded), then valid ones, with an evaluation of the engine-failing string in between *)
 Example C10_ex_history :
-  trace junk_q faithful init history =
+  trace junk_q engine_deep faithful init history =
   [ VP (VErr (EUnparse s_bad_args)); VP (VErr (EUnparse s_bad_tail));
-    VP (VErr (EUnbal OpenWithoutClose s_bad_open));
+    VP (VErr (EUnbal OpenWithoutClose s_bad_open)); VP (VErr EEngine);
     VP (VTree (Var [121%Z]) (mkNames [[121%Z]] [] []));
     VP (VTree (Var [121%Z]) (mkNames [[121%Z]] [] []));
+    VE (EvPErr EEngine);
     VE (EvVal (VS (mkC 6000 0)) (mkNames [[121%Z]] [] [[107%Z]]) 0);
     VP (VTree (Prod (Num [50%Z] (Some [107%Z])) [(OpMul, Var [121%Z])]) (mkNames [[121%Z]] [] [[107%Z]]));
     VE (EvErr EUndefVar) ].
 Proof. exact ex_history_trace. Qed.
 
 Example C10_ex_junk_was_recorded_and_abandoned :
-  cell (run junk_q faithful init history) 0 = mkNames [[120%Z]; [102%Z]; [113%Z]] [[113%Z]] [[113%Z]] /\
-  scratch (run junk_q faithful init history) = no_names /\
-  map fst (cache (run junk_q faithful init history)) = [s_y; s_ky; s_xf].
+  cell (run junk_q engine_deep faithful init history) 0 = mkNames [[120%Z]; [102%Z]; [113%Z]] [[113%Z]] [[113%Z]] /\
+  scratch (run junk_q engine_deep faithful init history) = no_names /\
+  map fst (cache (run junk_q engine_deep faithful init history)) = [s_y; s_ky; s_xf].
 Proof. exact ex_history_heap. Qed.
 
 (* the theorems need the mechanisms: resetting only after success makes "y" history dependent ... *)
 Example C10_ex_without_finally_history_dependent :
-  snd (step junk_q no_finally (run junk_q no_finally init [OParse s_bad_args]) (OParse s_y))
+  snd (step junk_q engine_deep no_finally (run junk_q engine_deep no_finally init [OParse s_bad_args]) (OParse s_y))
     = VP (VTree (Var [121%Z]) (mkNames [[120%Z]; [102%Z]; [113%Z]; [121%Z]] [[113%Z]] [[113%Z]])) /\
-  snd (step junk_q no_finally init (OParse s_y)) = VP (VTree (Var [121%Z]) (mkNames [[121%Z]] [] [])).
+  snd (step junk_q engine_deep no_finally init (OParse s_y)) = VP (VTree (Var [121%Z]) (mkNames [[121%Z]] [] [])).
 Proof. exact ex_without_finally. Qed.
+
+(* ... resetting after parse-class errors only lets an engine failure leak into the next uncached string
+   (first two equations), which `finally` prevents (third) ... *)
+Example C10_ex_reset_on_parse_errors_only_leaks :
+  snd (step junk_q engine_deep parse_errors_only (run junk_q engine_deep parse_errors_only init [OParse s_deep]) (OParse s_y))
+    = VP (VTree (Var [121%Z]) (mkNames [[113%Z]; [121%Z]] [[113%Z]] [[113%Z]])) /\
+  snd (step junk_q engine_deep parse_errors_only init (OParse s_y)) = VP (VTree (Var [121%Z]) (mkNames [[121%Z]] [] [])) /\
+  snd (step junk_q engine_deep faithful (run junk_q engine_deep faithful init [OParse s_deep]) (OParse s_y))
+    = VP (VTree (Var [121%Z]) (mkNames [[121%Z]] [] [])).
+Proof. exact ex_engine_failure_leaks. Qed.
 
 (* ... and clearing the collections instead of replacing them empties the returned object's own names *)
 Example C10_ex_with_clear_nothing_reported :
-  snd (step junk_q clearing init (OParse s_y)) = VP (VTree (Var [121%Z]) no_names).
+  snd (step junk_q engine_deep clearing init (OParse s_y)) = VP (VTree (Var [121%Z]) no_names).
 Proof. exact ex_with_clear. Qed.
 
 (* x(f)+2k*x : x is a function head and a variable, f only a variable, k a suffix *)
@@ -193,7 +220,7 @@ Example C10_ex_names_hypotheses_satisfiable :
 Proof. exact ex_names_hyps. Qed.
 
 Example C10_ex_names_after_history : exists l,
-  snd (step junk_q faithful (run junk_q faithful init history) (OParse s_xf)) = VP (VTree (flatten e_xf) l) /\
+  snd (step junk_q engine_deep faithful (run junk_q engine_deep faithful init history) (OParse s_xf)) = VP (VTree (flatten e_xf) l) /\
   nperm l (mkNames [[102%Z]; [120%Z]] [[120%Z]] [[107%Z]]).
 Proof. exact ex_names_after_history. Qed.
 
@@ -204,7 +231,7 @@ Example C10_ex_rendering_hypotheses_satisfiable :
 Proof. exact ex_rendering_hyps. Qed.
 
 Example C10_ex_rendering_names_after_history : exists l,
-  snd (step junk_q faithful (run junk_q faithful init history) (OParse s_xf_ws)) = VP (VTree (flatten e_xf) l) /\
+  snd (step junk_q engine_deep faithful (run junk_q engine_deep faithful init history) (OParse s_xf_ws)) = VP (VTree (flatten e_xf) l) /\
   nperm l (mkNames [[102%Z]; [120%Z]] [[120%Z]] [[107%Z]]).
 Proof. exact ex_rendering_names. Qed.
 
